@@ -64,6 +64,7 @@ type Exec struct {
 	discBody  []map[*ssa.BasicBlock]bool
 	ovfN      int
 	bindErrors []string
+	assumedObjInv map[string]bool
 	specs     map[string]*specInst
 	specDecls []string
 	specDepth int
@@ -84,7 +85,7 @@ func (x *Exec) note(s string) { x.notes[s] = true }
 
 func newExec(eng *Engine, fn *ssa.Function, fc *FuncContract) *Exec {
 	x := &Exec{eng: eng, fn: fn, fc: fc, globalSet: map[string]bool{}, arrSort: map[string]string{}, notes: map[string]bool{},
-		cellOf: map[*ssa.Alloc]*Cell{}, specUsed: map[string]bool{}, pathCap: 6000, coverDone: map[string]bool{}, specs: map[string]*specInst{}, refArrays: map[string]bool{}, recSpecs: map[string]bool{}}
+		cellOf: map[*ssa.Alloc]*Cell{}, specUsed: map[string]bool{}, pathCap: 6000, coverDone: map[string]bool{}, specs: map[string]*specInst{}, refArrays: map[string]bool{}, recSpecs: map[string]bool{}, assumedObjInv: map[string]bool{}}
 	return x
 }
 
@@ -316,9 +317,38 @@ func (x *Exec) atLoopHead(st *State, b, prev *ssa.BasicBlock, ord int, k Cont) {
 	}
 	if wkeys["*"] {
 		x.havocAllHeap(st)
+	} else {
+		// partial havocs only: what every one of them leaves alone stays
+		var common []string
+		first := true
+		for key := range wkeys {
+			if strings.HasPrefix(key, "*|") {
+				ps := strings.Split(key[2:], ",")
+				if first {
+					common, first = ps, false
+				} else {
+					var both []string
+					for _, p := range common {
+						for _, q := range ps {
+							if p == q {
+								both = append(both, p)
+							}
+						}
+					}
+					common = both
+				}
+			}
+		}
+		if !first {
+			if len(common) == 0 {
+				x.havocAllHeap(st)
+			} else {
+				x.havocExcept(st, common)
+			}
+		}
 	}
 	for _, key := range sortedKeys(wkeys) {
-		if key == "*" {
+		if key == "*" || strings.HasPrefix(key, "*|") {
 			continue
 		}
 		if strings.HasPrefix(key, "G|$visited") {
